@@ -150,9 +150,11 @@ structure Entry where
 
 def nan : Float := 0.0 / 0.0
 
-/-- relative distance of two floats (0 when equal, also for equal infinities / both NaN is NOT equal) -/
+/-- relative distance of two floats (0 when equal, also for equal infinities; NaN is at distance 1e300 of everything) -/
 def relDist (a b : Float) : Float :=
-  if a == b then 0.0 else (a - b).abs / (if a.abs < b.abs then b.abs else a.abs)
+  if a == b then 0.0
+  else if a != a || b != b then 1.0e300      -- a NaN never matches (recorded calls of a root finder gone astray)
+  else (a - b).abs / (if a.abs < b.abs then b.abs else a.abs)
 
 /-- largest component-wise relative distance; `none` when the shapes differ -/
 def distL : List Float → List Float → Option Float
